@@ -13,6 +13,7 @@ import (
 	"verif/h/hx"
 	"verif/h/llvmx"
 	"verif/h/lx"
+	"verif/h/mut"
 	"verif/h/orc"
 	"verif/h/reduce"
 	"verif/h/walk"
@@ -113,6 +114,41 @@ func TestStress(t *testing.T) {
 			hx.NonTrivial(x)
 		}
 		hx.SampleCase(test, src)
+	})
+}
+
+func TestClangCorpus(t *testing.T) {
+	const test = "ClangCorpus"
+	hx.Rule(test, "clang-14 output for corpus/src x corpus.ClangVariants (see C01): same fixpoint and structural-identity oracle; a module the parser rejects is discarded")
+	for i, c := range corpus.ClangCases() {
+		if !hx.Mine(i) {
+			continue
+		}
+		x := c.Text()
+		if x == "" {
+			hx.Discard("clang_rejects_combination")
+			continue
+		}
+		hx.Eval(1)
+		if judge(t, test, "clang-14 "+c.Name(), x, true) {
+			hx.NonTrivial("clang/" + c.Name())
+		}
+	}
+}
+
+func TestMutatedCorpus(t *testing.T) {
+	const test = "MutatedCorpus"
+	hx.Rule(test, "repository testdata and llvm-stress programs changed by 1..3 drawn text mutations (h/mut), kept when llvm-as and the parser accept them: same fixpoint and structural-identity oracle; non-trivial = valid mutated text; distinct by digest")
+	hx.Check(t, test, hx.N(60, 3000), func(rt *rapid.T) {
+		x, desc, ok := mut.Valid(rt)
+		if !ok {
+			hx.Discard("mutated_text_not_valid_or_not_accepted")
+			return
+		}
+		hx.Eval(1)
+		if judge(rt, test, desc, x, true) {
+			hx.NonTrivial(x)
+		}
 	})
 }
 
